@@ -787,3 +787,104 @@ def handed_out_objects_not_mutated(rep, M, rid):
                                       "fetched earlier changes retroactively, and a second call sees the already modified object", M.where(q, c))
     if not n:
         rep.ok(rid, "no analyzer method applies a mutator to a cached conventional / primitive system it fetched")
+
+
+# ----------------------------------------------------------------------------- the built-in tables are read-only
+TABLE_NAMES = ("CHIRALITY_PRESERVING_EUCLIDEAN_NORMALIZERS", "WYCKOFF_SETS", "SPACE_GROUP_INFO", "IMPROPER_RIGID_TRANSFORMATIONS", "PROPER_RIGID_TRANSFORMATIONS")
+_TAB_MUT = {"append", "extend", "insert", "pop", "remove", "clear", "sort", "reverse", "update", "setdefault", "popitem", "add", "discard", "fill", "put", "itemset", "resize"}
+
+
+def tables_read_only(rep, M, rid):
+    """no function stores into, or calls a mutator on, an object obtained from the built-in symmetry tables (the tables are module
+    state shared by every analysis: an in-place edit changes what all later lookups see)"""
+    from .dataflow import Flow
+    from .cfg import walk_own
+    from .effects import Effects
+    E = Effects(M)
+    n_funcs = n_sites = 0
+    for q, d in M.functions().items():
+        src_names = {x.id for x in ast.walk(d) if isinstance(x, ast.Name) and x.id in TABLE_NAMES} | \
+                    {x.attr for x in ast.walk(d) if isinstance(x, ast.Attribute) and x.attr in TABLE_NAMES}
+        if not src_names:
+            continue
+        n_funcs += 1
+        fl = Flow(d)
+
+        def from_table(e, at, depth=0):
+            """is the object denoted by e (part of) a table? views only: subscripts, .get(), .values()/.items() elements, plain aliases"""
+            if depth > 8:
+                return None
+            if isinstance(e, ast.Name):
+                if e.id in TABLE_NAMES:
+                    return e.id
+                for dn in fl.rd[at].get(e.id, ()):
+                    if dn == fl.cfg.entry:
+                        continue
+                    for kind, *rest in fl.def_value(dn, e.id):
+                        if kind in ("expr", "iter", "unpack"):
+                            r = from_table(rest[0], dn, depth + 1)
+                            if r:
+                                return r
+                return None
+            if isinstance(e, ast.Attribute):
+                return e.attr if e.attr in TABLE_NAMES else None
+            if isinstance(e, ast.Subscript):
+                return from_table(e.value, at, depth + 1)
+            if isinstance(e, ast.Call) and isinstance(e.func, ast.Attribute) and e.func.attr in ("get", "values", "items", "setdefault"):
+                return from_table(e.func.value, at, depth + 1)
+            if isinstance(e, ast.Call) and isinstance(e.func, ast.Name) and e.func.id in ("enumerate", "zip", "reversed", "iter") and e.args:
+                return from_table(e.args[0], at, depth + 1)
+            if isinstance(e, ast.IfExp):
+                return from_table(e.body, at, depth + 1) or from_table(e.orelse, at, depth + 1)
+            if isinstance(e, ast.BoolOp):
+                for v in e.values:
+                    r = from_table(v, at, depth + 1)
+                    if r:
+                        return r
+            return None
+        for node, data in fl.cfg.g.nodes(data=True):
+            s = data["ast"]
+            if s is None:
+                continue
+            hits = []
+            if isinstance(s, (ast.Assign, ast.AugAssign)):
+                for t in (s.targets if isinstance(s, ast.Assign) else [s.target]):
+                    if isinstance(t, (ast.Subscript, ast.Attribute)) and isinstance(t.ctx, ast.Store):
+                        r = from_table(t.value, node)
+                        if r:
+                            hits.append((s, r, f"stores into `{norm(t)[:40]}`"))
+                    if isinstance(s, ast.AugAssign) and isinstance(t, ast.Name):
+                        r = from_table(t, node)
+                        if r:
+                            hits.append((s, r, f"augmented assignment to `{t.id}` (in place for lists / arrays)"))
+            if isinstance(s, ast.Delete):
+                for t in s.targets:
+                    if isinstance(t, ast.Subscript):
+                        r = from_table(t.value, node)
+                        if r:
+                            hits.append((s, r, f"deletes `{norm(t)[:40]}`"))
+            for c in walk_own(s):
+                if not isinstance(c, ast.Call):
+                    continue
+                if isinstance(c.func, ast.Attribute) and c.func.attr in _TAB_MUT:
+                    r = from_table(c.func.value, node)
+                    if r:
+                        hits.append((c, r, f"calls .{c.func.attr}() on it"))
+                for callee in M.callees_of_call(q, c):
+                    if callee not in E.mut:
+                        continue
+                    ps2 = [x for x in M.params(callee) if x != "self"]
+                    for i, a in enumerate(c.args):
+                        if i < len(ps2) and ps2[i] in E.mut[callee]:
+                            r = from_table(a, node)
+                            if r:
+                                hits.append((c, r, f"passes it to {callee.split('.')[-1]}(), which modifies its parameter `{ps2[i]}`"))
+            for nd, tab, how in hits:
+                n_sites += 1
+                rep.violation(rid, f"{q.replace('matid.', '')}: `{norm(nd)[:60]}`", f"an object taken from the built-in table {tab} is modified in place ({how}): the table is "
+                              "module state shared by every analysis of the process, so every later lookup (and anyone inspecting the table) sees entries that are not in "
+                              "the source file - e.g. an identity record with a partial letter permutation inserted among the normalizers", M.where(q, nd))
+    if n_funcs == 0:
+        raise AnalysisError("no function reads the built-in symmetry tables")
+    if not n_sites:
+        rep.ok(rid, f"{n_funcs} functions read the built-in tables; none modifies an object obtained from them")
